@@ -221,7 +221,7 @@ def closure_fp(body):
     return hashlib.sha1('|'.join(parts).encode()).hexdigest()[:16]
 
 
-COMBINATORS = re.compile(r'^(?:std::option::Option::<.*>::(map|and_then|map_or|map_or_else|unwrap_or_else|ok_or_else|is_some_and|is_none_or|filter)|std::result::Result::<.*>::(map|map_err|and_then|unwrap_or_else|is_ok_and|is_err_and)|core::bool::<impl bool>::(then)|std::bool::<impl bool>::(then))$')
+COMBINATORS = re.compile(r'^(?:std::option::Option::<.*>::(map|and_then|map_or|map_or_else|unwrap_or_else|ok_or_else|is_some_and|is_none_or|filter)|std::result::Result::<.*>::(map|map_err|and_then|or_else|unwrap_or_else|is_ok_and|is_err_and)|core::bool::<impl bool>::(then)|std::bool::<impl bool>::(then))$')
 
 
 def _adt(adt, variant, vi, fields):
@@ -874,6 +874,10 @@ class Inliner:
                     berr_call = call_closure(fop, fv, [{'mv': {'l': v}}], lambda r: [assign(dest, {'k': 'use', 'op': {'mv': {'l': r}}})])
                     berr = block([assign(v, {'k': 'use', 'op': err_v})], {'k': 'goto', 'target': berr_call})
                     bok = block([assign(dest, {'k': 'use', 'op': ok_v})], {'k': 'goto', 'target': T})
+                elif kind == 'or_else':
+                    berr_call = call_closure(fop, fv, [{'mv': {'l': v}}], lambda r: [assign(dest, {'k': 'use', 'op': {'mv': {'l': r}}})])
+                    berr = block([assign(v, {'k': 'use', 'op': err_v})], {'k': 'goto', 'target': berr_call})
+                    bok = block([assign(v, {'k': 'use', 'op': ok_v}), assign(dest, _adt(RES, 'Ok', 0, [{'mv': {'l': v}}]))], {'k': 'goto', 'target': T})
                 else:
                     continue
                 blk['stmts'].append(assign(d, {'k': 'discr', 'place': {'l': s_loc}, 'ty': body['locals'][s_loc].get('ty') or RES, 'adt': RES}))
